@@ -154,11 +154,7 @@ func (eng *Engine) lemmaCtx(l *Lemma) (fc *FnCtx, err error) {
 	fc.resetPass(false)
 	st := &State{heap: map[string]string{}}
 	env := &SpecEnv{fc: fc, vars: map[string]SV{}, cur: st, old: st}
-	for _, p := range eng.prog.AllPackages() {
-		if shortType(p.Pkg.Path()) == l.Pkg {
-			env.pkg = p.Pkg
-		}
-	}
+	env.pkg = eng.pkgOfSpec(&FuncSpec{Pkg: l.Pkg})
 	for _, b := range l.Params {
 		t := env.resolveType(b.Type)
 		name := "l_" + b.Name
